@@ -214,7 +214,7 @@ def check_history(ctx, case, wdir):
         try:
             if len(path) > 3 and op not in ('len', 'iter'):
                 raise ValueError('deep')
-            if op in ('set', 'set_nested'):
+            if op in ('set', 'set_nested', 'update'):
                 mm = mget(model, path[:-1])
                 mm[path[-1]] = realise(h['value'])
                 exp = ('ok', None)
@@ -234,6 +234,10 @@ def check_history(ctx, case, wdir):
         try:
             if op == 'set':
                 cfg[key] = realise(h['value'])
+                got = ('ok', None)
+            elif op == 'update':
+                # the mapping's own update(): the same as item assignment, entry by entry (the new value REPLACES the old one)
+                cfg.update({key: realise(h['value'])})
                 got = ('ok', None)
             elif op == 'set_nested':
                 tgt = cfg
@@ -377,16 +381,16 @@ def gen_history(rng, name):
             k = str(gens.pick(rng, keys)) if keys and rng.random() < .8 else gens.pick(rng, ['new%d', 'new.%d', 'new-%d_x']) % rng.integers(0, 3)
             path.append(k)
             d = d.get(k) if isinstance(d, dict) and isinstance(d.get(k), dict) else {}
-        op = gens.pick(rng, ['set', 'set', 'set_nested', 'get', 'del', 'len', 'iter'])
-        if op in ('set', 'set_nested') and len(path) == 1 and path[0] in ('imf_opts', 'envelope_opts', 'extrema_opts'):
+        op = gens.pick(rng, ['set', 'set', 'set_nested', 'get', 'del', 'len', 'iter', 'update'])
+        if op in ('set', 'set_nested', 'update') and len(path) == 1 and path[0] in ('imf_opts', 'envelope_opts', 'extrema_opts'):
             op = 'get'   # replacing a whole option group by a scalar is not an edit of an option
         step = {'op': op, 'path': path, 'export': bool(rng.random() < .1)}
-        if op in ('set', 'set_nested'):
-            step['value'] = rand_value(rng)
+        if op in ('set', 'set_nested', 'update'):
+            step['value'] = rand_value(rng) if (op != 'update' or rng.random() < .5) else gens.pick(rng, [{'mode': 'mean'}, {'mode': 'maximum', 'stat_length': 3}, {'b': 2}])
         # keep the generator's shadow in step so later paths are interesting
         try:
             if len(path) <= 3:
-                if op in ('set', 'set_nested'):
+                if op in ('set', 'set_nested', 'update'):
                     mget(model, path[:-1])[path[-1]] = step['value']
                 elif op == 'del':
                     del mget(model, path[:-1])[path[-1]]
